@@ -28,8 +28,22 @@ def run(ctx):
     got = set(g['consts'])
     for k in sorted(set(ref) - got)[:5]:
         ctx.violation('constant %s::%s must be %d (IANA); the implementation does not define it with that value' % ref[k], {'constant': list(ref[k])}, key='const:%s::%s' % ref[k][:2])
+    extra = {}          # values that print a name the reference does not know: (type name, value) -> name
     for k in sorted(got - set(ref))[:5]:
         ctx.violation('implementation defines a constant not in the registry reference: type %d value %d' % (k[0], k[1]), {'row': list(k)}, key='extra:%d:%d' % (k[0], k[1]))
+    refn = {(r[0], r[1]): r[2] for r in ref}
+    refnames = {(r[0], r[2]) for r in ref}
+    for k in g['names_rows']:
+        if tuple(k) in ref:
+            continue
+        tname = types[k[0]] if k[0] < len(types) else '?'
+        if (k[0], k[1]) in refn or (k[0], k[2]) in refnames:
+            if tname in iana.DISPLAY:
+                ctx.violation('type %s value %d prints "%s", contradicting the registry reference' % (tname, k[1], gen_tables.unsn(k[2])), {'row': list(k)}, key='conflict:%d:%d' % (k[0], k[1]))
+        else:
+            extra[(tname, k[1])] = gen_tables.unsn(k[2])
+    if extra:
+        ctx.notes.append('values printing a name the reference does not know (constants registered after it was written? not judged): %s' % sorted(extra.items())[:10])
     lines, want = [], []
     for t in types + ['TlsCipherSuiteID']:
         w = iana.WIDTH.get(t, 16)
@@ -60,7 +74,7 @@ def run(ctx):
             if v in bits and bits[v] is not None:
                 if a != 'ok (some %d)' % bits[v]:
                     bad = 'ok (some %d)' % bits[v]
-            elif v not in bits and a != 'ok none':
+            elif v not in bits and a != 'ok none' and ('NamedGroup', v) not in extra:
                 bad = 'ok none'
             ctx.distinct.add(('keybits', a))
         else:
@@ -72,6 +86,8 @@ def run(ctx):
                     txt = bytes.fromhex(a[5:]).decode(errors='replace')
                     named = set(iana.IANA.get(t, {}))
                     if v not in iana.IANA.get(t, {}).values() and txt not in named and (str(v) in txt or ('%x' % v) in txt.lower()):
+                        bad = None
+                    if (t, v) in extra and (extra[(t, v)] is None or txt == extra[(t, v)]):
                         bad = None
             if op in ('disp', 'dbg') and not a.endswith('29') :
                 ctx.distinct.add((op, ln.split(' ')[1], 'name' if len(a) < 60 and b'(' not in bytes.fromhex(a[5:]) else 'fallback'))
